@@ -242,6 +242,20 @@ pub enum FaultKind {
     Once,
     /// this write accepts only k bytes (k >= 1)
     Short(usize),
+    /// this call and every later one transfers at most k bytes (k >= 1)
+    ShortFrom(usize),
+}
+
+/// `perm|once|intr|short|short:k|shortfrom:k`
+pub fn fault_kind(s: &str) -> FaultKind {
+    match s {
+        "intr" => FaultKind::Interrupted,
+        "once" => FaultKind::Once,
+        "short" => FaultKind::Short(1),
+        k if k.starts_with("short:") => FaultKind::Short(k[6..].parse().unwrap()),
+        k if k.starts_with("shortfrom:") => FaultKind::ShortFrom(k[10..].parse().unwrap()),
+        _ => FaultKind::Permanent,
+    }
 }
 
 #[derive(Default)]
@@ -291,6 +305,14 @@ impl Shared {
             (Some(at), Some(FaultKind::Permanent)) if idx >= at => {
                 s.tripped = true;
                 Some(FaultKind::Permanent)
+            }
+            (Some(at), Some(FaultKind::ShortFrom(k))) => {
+                if idx >= at {
+                    s.tripped = true;
+                    Some(FaultKind::Short(k))
+                } else {
+                    None
+                }
             }
             (Some(at), Some(k)) if idx == at && k != FaultKind::Permanent => {
                 s.tripped = true;
